@@ -862,4 +862,256 @@ theorem ligLoop_sim (t : LigTable) (hcomp : ∀ i v, t.components i = some v →
         rw [e4]
         exact ⟨cs3, b3, n, rfl, hrep3, hg3, by rw [ht3, ht1], by rw [hl3, hl1], hs3, hlo3, hi3, hsim3⟩
 
+/-- the ligature context and the in/out buffer of the code represent a state of the reference interpreter -/
+structure Rlig (cs : CS) (b : RbModel.Buf) (st : List Nat) (lo : Nat) (s : St) : Prop where
+  rep : Rep cs st lo
+  sorted : Sorted st
+  below : ∀ x ∈ st, x ≤ b.outLen
+  good : Good b
+  stack : s.stack = (st.drop lo).reverse
+  lost : s.lost = lo
+  cur : s.i = b.outLen
+  sim : Sim b s.xs
+
+theorem sorted_take (st : List Nat) (n : Nat) (h : Sorted st) : Sorted (st.take n) := by
+  intro i j x y hij hx hy
+  rw [List.getElem?_take] at hx hy
+  split at hx <;> split at hy <;> first | exact h i j x y hij hx hy | cases hx | cases hy
+
+theorem ligPerform_sim (t : LigTable) (hcomp : ∀ i v, t.components i = some v → v < 65536)
+    (cs : CS) (e : Entry) (b : RbModel.Buf) (st : List Nat) (lo : Nat) (s s' : St)
+    (hr : Rlig cs b st lo s) (hx1 : e.x1 + 64 ≤ 65535)
+    (h : ligPerform t.actions t.components t.ligatures ⟨e.newState, e.flags, e.x1, e.x2⟩ s = some s') :
+    ∃ cs' b' n, LigS.ligPerform t cs e b = .ok (cs', b') ∧ Rlig cs' b' (st.take n) lo s' ∧ b'.outLen = b.outLen ∧
+      RbModel.Buf.total b' = RbModel.Buf.total b := by
+  obtain ⟨hrep, hsorted, hbelow, hg, hstack, hlost, hcur, hsim⟩ := hr
+  have hlo := hrep.lo_le
+  have hwin := hrep.win
+  have htake : st.take st.length = st := List.take_of_length_le (Nat.le_refl _)
+  unfold ligPerform at h
+  unfold LigS.ligPerform
+  by_cases hL : st.length = lo
+  · -- nothing remembered
+    have hemp : s.stack.isEmpty = true := by
+      rw [hstack, List.drop_of_length_le (by omega)]; rfl
+    simp only [hemp, if_true] at h
+    by_cases hl0 : lo = 0
+    · have : (s.lost != 0) = false := by simp [hlost, hl0]
+      simp only [this, Bool.false_eq_true, if_false, Option.some.injEq] at h
+      subst h
+      have hm : (cs.matchLen == 0) = true := by
+        have : cs.matchLen = 0 := by rw [hrep.len]; omega
+        simp [this]
+      simp only [hm, if_true, pure, Except.pure]
+      exact ⟨cs, b, st.length, rfl, by rw [htake]; exact ⟨hrep, hsorted, hbelow, hg, hstack, hlost, hcur, hsim⟩, rfl, rfl⟩
+    · have : (s.lost != 0) = true := by simp [hlost, hl0]
+      simp [this] at h
+  · have hne : s.stack.isEmpty = false := by
+      rw [hstack]
+      have : (st.drop lo).length ≠ 0 := by simp; omega
+      cases hd : (st.drop lo).reverse with
+      | nil => simp at hd; omega
+      | cons a l => rfl
+    simp only [hne, Bool.false_eq_true, if_false] at h
+    have hm : (cs.matchLen == 0) = false := by
+      have : cs.matchLen ≠ 0 := by rw [hrep.len]; omega
+      simpa using this
+    simp only [hm, Bool.false_eq_true, if_false]
+    have hidx := hg.inv.idx_le
+    by_cases hend : s.i ≥ s.len
+    · simp only [hend, if_true, Option.some.injEq] at h
+      subst h
+      have : b.idx ≥ b.len := by
+        have h1 := hsim.size
+        unfold St.len at hend
+        rw [h1, hcur] at hend
+        unfold RbModel.Buf.total at hend; omega
+      simp only [this, if_true, pure, Except.pure]
+      exact ⟨cs, b, st.length, rfl, by rw [htake]; exact ⟨hrep, hsorted, hbelow, hg, hstack, hlost, hcur, hsim⟩, rfl, rfl⟩
+    · simp only [hend, if_false] at h
+      have hcurlt : ¬ b.idx ≥ b.len := by
+        have h1 := hsim.size
+        unfold St.len at hend
+        rw [h1, hcur] at hend
+        unfold RbModel.Buf.total at hend; omega
+      simp only [hcurlt, if_false]
+      have hdropall : st.drop st.length = [] := List.drop_of_length_le (Nat.le_refl _)
+      obtain ⟨cs1, b1, n, e1, hrep1, hg1, ht1, _, hs1, hl1, hi1, hsim1⟩ :=
+        ligLoop_sim t hcomp st.length e.x1 0 cs b st lo s _ s' hrep hlo (Nat.le_refl _) hsorted hg
+          (by
+            intro j x hj hx
+            rw [List.getElem?_eq_none hj] at hx; cases hx)
+          (by rw [htake]; exact hstack) hlost hsim (by omega) (by omega) (by rw [hdropall]; exact h)
+      have hm' : cs.matchLen = st.length := hrep.len
+      rw [hm', e1]
+      obtain ⟨b2, e2, hg2, ho2, ht2, _, hq2, _⟩ := moveStep b1 b.outLen hg1 (by rw [ht1]; unfold RbModel.Buf.total; omega)
+      simp only [bind, Except.bind, e2, pure, Except.pure]
+      refine ⟨cs1, b2, n, rfl, ⟨hrep1, sorted_take st n hsorted, ?_, hg2, hs1, hl1, by rw [hi1, hcur, ho2], ?_⟩, ho2,
+        by rw [ht2, ht1]⟩
+      · intro x hx; rw [ho2]; exact hbelow x (List.mem_of_mem_take hx)
+      · exact ⟨by rw [ht2]; exact hsim1.size, fun q => by rw [hq2]; exact hsim1.get q⟩
+
+theorem ligPush_sim (cs : CS) (b : RbModel.Buf) (st : List Nat) (lo : Nat) (s s' : St)
+    (hr : Rlig cs b st lo s) (h : Spec.Aat.ligPush s = some s') :
+    ∃ cs', LigS.ligPush cs b.outLen = .ok cs' ∧
+      Rlig cs' b (pushed st b.outLen) (pushedLo st lo b.outLen) s' := by
+  obtain ⟨hrep, hsorted, hbelow, hg, hstack, hlost, hcur, hsim⟩ := hr
+  have hlo := hrep.lo_le
+  have hwin := hrep.win
+  unfold Spec.Aat.ligPush at h
+  -- the new stack is sorted and below the cursor whatever was pushed
+  have hsorted' : Sorted (pushed st b.outLen) := by
+    unfold pushed
+    split
+    · exact hsorted
+    · intro i j x y hij hx hy
+      by_cases hj : j < st.length
+      · rw [List.getElem?_append_left hj] at hy
+        rw [List.getElem?_append_left (by omega)] at hx
+        exact hsorted i j x y hij hx hy
+      · have hxle : x ≤ b.outLen := by
+          by_cases hi : i < st.length
+          · rw [List.getElem?_append_left hi] at hx
+            exact hbelow x (List.mem_of_getElem? hx)
+          · rw [List.getElem?_append_right (by omega)] at hx
+            have : i - st.length = 0 := by
+              rcases Nat.eq_zero_or_pos (i - st.length) with h0 | h0
+              · exact h0
+              · rw [List.getElem?_eq_none (by simp; omega)] at hx; cases hx
+            rw [this] at hx; simp at hx; omega
+        rw [List.getElem?_append_right (by omega)] at hy
+        have : j - st.length = 0 := by
+          rcases Nat.eq_zero_or_pos (j - st.length) with h0 | h0
+          · exact h0
+          · rw [List.getElem?_eq_none (by simp; omega)] at hy; cases hy
+        rw [this] at hy; simp at hy; omega
+  have hbelow' : ∀ x ∈ pushed st b.outLen, x ≤ b.outLen := by
+    intro x hx
+    unfold pushed at hx
+    split at hx
+    · exact hbelow x hx
+    · rcases List.mem_append.mp hx with h1 | h1
+      · exact hbelow x h1
+      · simp at h1; omega
+  by_cases hL : st.length = lo
+  · -- nothing remembered: only the empty stack is inside the domain
+    have hemp : s.stack = [] := by rw [hstack, List.drop_of_length_le (by omega)]; rfl
+    rw [hemp] at h
+    simp only at h
+    by_cases hl0 : lo = 0
+    · have hlost0 : (s.lost != 0) = false := by simp [hlost, hl0]
+      simp only [hlost0, Bool.false_eq_true, if_false, Option.some.injEq] at h
+      subst h
+      have hnil : st = [] := List.eq_nil_of_length_eq_zero (by omega)
+      subst hnil; subst hl0
+      obtain ⟨cs', e1, hrep'⟩ := ligPush_rep cs [] 0 b.outLen hrep (Or.inl rfl)
+      refine ⟨cs', e1, ⟨hrep', hsorted', hbelow', hg, ?_, ?_, ?_, ?_⟩⟩
+      · unfold ligPushPos; rw [hemp]; simp [ligStackKept, pushed, pushedLo, hcur]
+      · unfold ligPushPos; rw [hemp]; simp [ligStackKept, pushed, pushedLo, hlost]
+      · unfold ligPushPos; rw [hemp]; simp [ligStackKept, hcur]
+      · unfold ligPushPos; rw [hemp]; simpa [ligStackKept] using hsim
+    · have : (s.lost != 0) = true := by simp [hlost, hl0]
+      simp [this] at h
+  · have hlt : lo < st.length := by omega
+    have htop : st.length - 1 < st.length := by omega
+    have hlast : st.getLast? = some st[st.length - 1] := by
+      rw [getLast?_eq_getElem? st, List.getElem?_eq_getElem htop]
+    have hst : s.stack = st[st.length - 1] :: ((st.take (st.length - 1)).drop lo).reverse := by
+      rw [hstack]
+      have := take_succ_drop_rev st (st.length - 1) lo (by omega) htop
+      rw [show st.length - 1 + 1 = st.length by omega, List.take_of_length_le (Nat.le_refl _)] at this
+      exact this
+    rw [hst] at h
+    simp only [Option.some.injEq] at h
+    obtain ⟨cs', e1, hrep'⟩ := ligPush_rep cs st lo b.outLen hrep (Or.inr hlt)
+    refine ⟨cs', e1, ?_⟩
+    by_cases hp : st[st.length - 1] = b.outLen
+    · have hbeq : (st[st.length - 1] == s.i) = true := by simp [hp, hcur]
+      simp only [hbeq, if_true] at h
+      subst h
+      have hpu : pushed st b.outLen = st := by unfold pushed; rw [hlast, hp]; simp
+      have hpl : pushedLo st lo b.outLen = lo := by unfold pushedLo; rw [hlast, hp]; simp
+      rw [hpu, hpl] at hrep' ⊢
+      exact ⟨hrep', hsorted, hbelow, hg, hstack, hlost, hcur, hsim⟩
+    · have hbeq : (st[st.length - 1] == s.i) = false := by simp [hp, hcur]
+      simp only [hbeq, Bool.false_eq_true, if_false] at h
+      subst h
+      have hne' : ¬ st.getLast? = some b.outLen := by rw [hlast]; intro hh; exact hp (Option.some.inj hh)
+      have hpu : pushed st b.outLen = st ++ [b.outLen] := by unfold pushed; simp [hne']
+      have hpl : pushedLo st lo b.outLen = if st.length - lo < 64 then lo else lo + 1 := by
+        unfold pushedLo; simp [hne']
+      have hslen : s.stack.length = st.length - lo := by rw [hstack]; simp
+      refine ⟨hrep', hsorted', hbelow', hg, ?_, ?_, ?_, ?_⟩
+      · rw [hpu, hpl]
+        unfold ligPushPos
+        by_cases hfull : st.length - lo < 64
+        · have : s.stack.length < ligStackKept := by rw [hslen]; exact hfull
+          simp only [this, if_true, hfull]
+          rw [hcur, hstack, List.drop_append_of_le_length (by omega)]
+          simp
+        · have : ¬ s.stack.length < ligStackKept := by rw [hslen]; exact hfull
+          simp only [this, if_false, hfull]
+          rw [hcur, hstack, List.drop_append_of_le_length (by omega)]
+          have h64 : (st.drop lo).length = 64 := by simp; omega
+          have e : ligStackKept = 63 + 1 := rfl
+          rw [e, List.take_succ_cons, List.reverse_append]
+          simp only [List.reverse_cons, List.reverse_nil, List.nil_append, List.singleton_append, List.cons.injEq, true_and]
+          rw [List.take_reverse, h64]
+          simp only [show 64 - 63 = 1 by rfl, List.drop_drop]
+      · rw [hpl]
+        unfold ligPushPos
+        by_cases hfull : st.length - lo < 64
+        · have : s.stack.length < ligStackKept := by rw [hslen]; exact hfull
+          simp only [this, if_true, hfull]; exact hlost
+        · have : ¬ s.stack.length < ligStackKept := by rw [hslen]; exact hfull
+          simp only [this, if_false, hfull]; rw [hlost]
+      · unfold ligPushPos; split <;> exact hcur
+      · unfold ligPushPos; split <;> exact hsim
+
+/-- **LigatureCtx::transition refines the reference interpreter's ligature action** (`Spec.Aat.ligAct`), for every
+    table, entry, stack and buffer: see `C17_ligature_stack_discipline` in Props/C17.lean. -/
+theorem ligTransition_sim (t : LigTable) (hcomp : ∀ i v, t.components i = some v → v < 65536)
+    (cs : CS) (e : Entry) (b : RbModel.Buf) (st : List Nat) (lo : Nat) (s s' : St)
+    (hr : Rlig cs b st lo s) (hx1 : e.x1 + 64 ≤ 65535)
+    (h : ligAct t.actions t.components t.ligatures ⟨e.newState, e.flags, e.x1, e.x2⟩ s = some s') :
+    ∃ cs' b' st' lo', LigS.transition t cs e b = .ok (cs', b') ∧ Rlig cs' b' st' lo' s' ∧ b'.outLen = b.outLen ∧
+      RbModel.Buf.total b' = RbModel.Buf.total b ∧
+      (∃ n, st' = (if bit e.flags LIG_SET_COMPONENT then pushed st b.outLen else st).take n) ∧
+      lo' = (if bit e.flags LIG_SET_COMPONENT then pushedLo st lo b.outLen else lo) := by
+  unfold ligAct at h
+  unfold LigS.transition
+  have hflag1 : has e.flags fSetMark = bit e.flags LIG_SET_COMPONENT := rfl
+  have hflag2 : has e.flags fPerformAction = bit e.flags LIG_PERFORM_ACTION := rfl
+  simp only [bind, Option.bind] at h
+  rw [hflag1, hflag2] at h
+  by_cases hset : bit e.flags LIG_SET_COMPONENT = true
+  · simp only [hset, if_true] at h ⊢
+    cases hp : Spec.Aat.ligPush s with
+    | none => rw [hp] at h; cases h
+    | some s1 =>
+      rw [hp] at h
+      simp only at h
+      obtain ⟨cs1, e1, hr1⟩ := ligPush_sim cs b st lo s s1 hr hp
+      simp only [e1, bind, Except.bind]
+      by_cases hperf : bit e.flags LIG_PERFORM_ACTION = true
+      · simp only [hperf, if_true] at h ⊢
+        obtain ⟨cs2, b2, n, e2, hr2, ho2, ht2⟩ := ligPerform_sim t hcomp cs1 e b _ _ s1 s' hr1 hx1 h
+        exact ⟨cs2, b2, _, _, e2, hr2, ho2, ht2, ⟨n, rfl⟩, rfl⟩
+      · have hperf' : bit e.flags LIG_PERFORM_ACTION = false := by simpa using hperf
+        simp only [hperf', Bool.false_eq_true, if_false, Option.some.injEq, pure, Except.pure] at h ⊢
+        subst h
+        refine ⟨cs1, b, _, _, rfl, hr1, rfl, rfl, ⟨(pushed st b.outLen).length, ?_⟩, rfl⟩
+        rw [List.take_of_length_le (Nat.le_refl _)]
+  · have hset' : bit e.flags LIG_SET_COMPONENT = false := by simpa using hset
+    simp only [hset', Bool.false_eq_true, if_false, pure, Except.pure, bind, Except.bind] at h ⊢
+    by_cases hperf : bit e.flags LIG_PERFORM_ACTION = true
+    · simp only [hperf, if_true] at h ⊢
+      obtain ⟨cs2, b2, n, e2, hr2, ho2, ht2⟩ := ligPerform_sim t hcomp cs e b _ _ s s' hr hx1 h
+      exact ⟨cs2, b2, _, _, e2, hr2, ho2, ht2, ⟨n, rfl⟩, rfl⟩
+    · have hperf' : bit e.flags LIG_PERFORM_ACTION = false := by simpa using hperf
+      simp only [hperf', Bool.false_eq_true, if_false, Option.some.injEq] at h ⊢
+      subst h
+      refine ⟨cs, b, _, _, rfl, hr, rfl, rfl, ⟨st.length, ?_⟩, rfl⟩
+      rw [List.take_of_length_le (Nat.le_refl _)]
+
 end RbModel.Morx
